@@ -350,6 +350,20 @@ def bounds(rep, K):
 
 # --------------------------------------------------------------------------- 4. sibling arms
 
+class _NoDelay(ast.NodeTransformer):
+    """delays[...] lookups do not matter for the parity/consumption argument of C03 (they are decided by C04.provenance):
+    replace them by one placeholder before comparing sibling arms."""
+    def visit_Subscript(self, node):
+        if is_name(node.value, 'delays'):
+            return ast.copy_location(ast.Name(id='DELAY', ctx=ast.Load()), node)
+        return self.generic_visit(node)
+
+
+def _nodelay(node):
+    import copy
+    return ast.fix_missing_locations(_NoDelay().visit(copy.deepcopy(node)))
+
+
 def siblings(rep, K):
     rep.rule('C03.siblings', 'the four operand arms, the initial operand loads and the refresh block are identical under a->x, a_idx->x_idx, a_mem->x_mem, a_cur->x_cur, 1->2^k')
     ref_l = K.letters[0]
@@ -362,8 +376,10 @@ def siblings(rep, K):
         for st in b:
             if isinstance(st, ast.AugAssign) and is_name(st.target, 'inputs'):
                 txt.append(renamed(st, **ren(l, w)))
+            elif isinstance(st, ast.Assign) and is_name(st.targets[0], 'thresh'):
+                continue      # pulse threshold: a Duration, C04's business
             else:
-                txt.append(renamed(st, names=ren(l, w)['names']))
+                txt.append(renamed(_nodelay(st), names=ren(l, w)['names']))
         if ref is None:
             ref = txt
             rep.ob('C03.siblings', f'arm {l} (reference)', True, sample={'rule': 'C03.siblings', 'normalised arm': txt})
@@ -388,9 +404,9 @@ def siblings(rep, K):
         if not ok:
             rep.violate('C03.siblings', K.mod, K.f, f'{name}: {sorted(ld)}', f'{name}: every operand a..d must be (re)loaded; found {sorted(ld)} (a stale delayed time would be compared)', node=K.f)
             continue
-        r0 = renamed(ld[ref_l].value, names=ren(ref_l, 0)['names'])
+        r0 = renamed(_nodelay(ld[ref_l].value), names=ren(ref_l, 0)['names'])
         for l in K.letters[1:]:
-            t = renamed(ld[l].value, names=ren(l, 0)['names'])
+            t = renamed(_nodelay(ld[l].value), names=ren(l, 0)['names'])
             ok = t == r0
             rep.ob('C03.siblings', f'{name}: {l} = {ref_l} under renaming', ok)
             if not ok:
